@@ -1,15 +1,15 @@
 ------------------------------- MODULE Refuse -------------------------------
 (* The request state machine of C17; the verdict rules are in RefuseRules.tla *)
-EXTENDS RefuseRules
+EXTENDS RefuseRules, Integers
 
 VARIABLES req, phase, execs, obj
 vars == <<req, phase, execs, obj>>
 
 Values(k) ==
-    CASE k = "facade_bs0" -> 0..8
+    CASE k \in {"facade_bs0", "facade_bs_reset"} -> 0..8
       [] k \in {"opcode_ctor", "opcode_len"} -> 0..255
       [] k = "opcode_reuse" -> 0..1023
-      [] k = "prin_sa" -> 0..40 \cup {255, 256, 65536}
+      [] k = "prin_sa" -> (-8..40) \cup {255, 256, 65536, -256, -65536}   \* negative integers are integers too
       [] k \in {"xcopy_cscd_key", "xcopy_seg_key"} -> {0, 1}
       [] k = "xcopy_cscd_type" -> \hD0..\hFF
       [] k = "xcopy_seg_type" -> 0..\h30 \cup {\hBE, \hBF, \hC0}
@@ -24,7 +24,7 @@ Validate == /\ phase = "idle"
             /\ UNCHANGED <<req, execs, obj>>
 Build == /\ phase = "validated" /\ phase' = "built" /\ obj' = TRUE /\ UNCHANGED <<req, execs>>
 \* only requests that go through the facade are sent
-Send  == /\ phase = "built" /\ req.k \in {"prin_sa", "facade_bs0"} /\ phase' = "sent" /\ execs' = execs + 1 /\ UNCHANGED <<req, obj>>
+Send  == /\ phase = "built" /\ req.k \in {"prin_sa", "facade_bs0", "facade_bs_reset"} /\ phase' = "sent" /\ execs' = execs + 1 /\ UNCHANGED <<req, obj>>
 Next == Validate \/ Build \/ Send
 Spec == Init /\ [][Next]_vars
 
